@@ -1,4 +1,5 @@
 """C10 — WhenAny completes once with the right winner for each fail policy (DESIGN.md §3 C10)."""
+from vlib import apiprobe
 from vlib import conc
 
 from . import _when
@@ -21,6 +22,7 @@ def run(res, tier):
         '(no combinator): checked by the harness monitors only',
         'the model allows stale pre-check loads; the FIBER backend never produces them',
     ]
+    apiprobe.stage(res, 'C10', tier)  # every public form of the area still instantiates (vlib/apiprobe.py, harness/api_probe_*.cpp)
     conc.concurrent_check(
         res, 'C10', tier, 'c10.cpp', 'when', RULES,
         quick_args=['--family', 'any', '--mode', 'dfs', '--pb', '2', '--pb3', '2', '--wb', '1'],
@@ -32,4 +34,7 @@ def run(res, tier):
 
 
 def replay(path):
+    r = apiprobe.replay(path)
+    if r is not None:
+        return r
     return _when.replay('C10', path)
